@@ -52,7 +52,7 @@ func genCase(t *rapid.T) Case {
 	c.Fault = Fault{
 		RG: rapid.IntRange(0, 7).Draw(t, "frg"), Col: rapid.IntRange(0, len(cols)-1).Draw(t, "fcol"),
 		Page: []int{0, 0, 1, -1}[rapid.IntRange(0, 3).Draw(t, "fpagek")], // page 0 is the dictionary page when there is one
-		Off: []int{0, 999, 500, 1, 998}[rapid.IntRange(0, 4).Draw(t, "foffk")],
+		Off:  []int{0, 999, 500, 1, 998}[rapid.IntRange(0, 4).Draw(t, "foffk")],
 	}
 	if c.Fault.Page < 0 {
 		c.Fault.Page = rapid.IntRange(0, 30).Draw(t, "fpage")
